@@ -250,7 +250,7 @@ def gen_history(cfg, ref, rng):
         ops_per_save_ = max(2, (markers[-1] - markers[0]) // max(1, len(markers) - 1))
         first = rng.choice(markers[:-2])
         second = ops_per_save_ * rng.choice([1, 1, 2, 3]) + rng.choice([0, 1])
-        apis = [('checkpoint_results' if rng.random() < 0.25 else 'filename') for _ in range(3)]
+        apis = [rng.choice(['filename', 'filename', 'checkpoint_results', 'from_saved_checkpoint']) for _ in range(3)]
         return {'cfg': cfg, 'faults': [{'kind': 'kill', 'at_op': first, 'tear': None},
                                        {'kind': 'kill', 'at_op': second, 'tear': None}],
                 'clock_seed': rng.getrandbits(32), 'resume_api': apis, 'scenario': 'stopped_twice_between_saves',
@@ -292,7 +292,8 @@ def gen_history(cfg, ref, rng):
             at = rng.randrange(0, ops_total) if s == 0 else rng.randrange(0, ops_per_save + 2)
             faults.append({'kind': 'diskfull', 'at_op': at, 'frac': rng.choice([0.0, 0.3, 0.9, 0.999])})
     # how the user resumes after the s-th crash: by file name (usual) or by loading the file himself
-    apis = [('checkpoint_results' if rng.random() < 0.25 else 'filename') for _ in range(n_faults + 1)]
+    apis = [rng.choice(['filename', 'filename', 'checkpoint_results', 'from_saved_checkpoint'])
+            for _ in range(n_faults + 1)]
     return {'cfg': cfg, 'faults': faults, 'clock_seed': rng.getrandbits(32), 'resume_api': apis,
             'ref_clock_reads': ref.get('clock_reads')}
 
@@ -329,7 +330,8 @@ def compare_results(ref, res, cfg, stats=None):
     tol = TOL[tc]
     rm, mm = ref.get('measurements', {}), res.get('measurements', {})
     if set(rm) != set(mm):
-        return ('resume.measurement_keys', f'keys differ: {sorted(set(rm) ^ set(mm))}', {})
+        return ('resume.measurement_keys', f'keys differ: {sorted(set(rm) ^ set(mm))}',
+                {'keys': ','.join(sorted(set(rm) ^ set(mm)))})
     idx_ref = list(np.asarray(rm.get('measurement_index', [])))
     idx_res = list(np.asarray(mm.get('measurement_index', [])))
     if idx_res != list(range(len(idx_res))):
@@ -688,7 +690,7 @@ def _pack(stats, violations, idx):
 # ---------------------------------------------------------------------------------------------
 def violation_class(v):
     f = v.get('facts', {})
-    return (v['invariant'], f.get('exc_type'), f.get('exc_function'), f.get('key'), f.get('kind'))
+    return (v['invariant'], f.get('exc_type'), f.get('exc_function'), f.get('key'), f.get('kind'), f.get('keys'))
 
 
 def replay_plan(plan, stats=None):
@@ -737,7 +739,7 @@ def minimise(found, budget_s=240.0):
     simplifications = [('ext', '.pkl'), ('clock', 'steady'), ('extra_measurements', False), ('L', 4),
                        ('preexisting_output', False), ('conserve', None), ('save_every', 0.0), ('mixer', None),
                        ('measure_at_checkpoints', False), ('max_hours', None), ('N_sweeps_check', 1),
-                       ('chi_list', None), ('group_sites', 1), ('measure_initial', True), ('save_stats', True), ('save_psi', True), ('wrapped_measurement', False), ('start_time', 0.0), ('preserve_norm', None), ('combine', False), ('max_sweeps', 3), ('n_outer', 3), ('N_steps', 1), ('chi', 8), ('model', 'TFIChain'),
+                       ('chi_list', None), ('group_sites', 1), ('measure_initial', True), ('save_stats', True), ('save_psi', True), ('wrapped_measurement', False), ('truncerr_measurement', False), ('start_time', 0.0), ('preserve_norm', None), ('combine', False), ('max_sweeps', 3), ('n_outer', 3), ('N_steps', 1), ('chi', 8), ('model', 'TFIChain'),
                        ('order', 2)]
     for key, val in simplifications:
         if key in best['cfg'] and best['cfg'][key] != val and best['cfg'][key] is not None or (
